@@ -3,7 +3,7 @@ import Failsafe.Conc.TraceHedge
 /-!
 # C09 — hedge: bounded attempts, spaced by the delay, one winner, losers cancelled
 
-For every `maxHedges` (any `n = maxHedges + 1`), every order in which attempts complete and every outcome (each `finish` action
+For every `maxHedges` (any `n = maxHedges + 1`), every order in which attempts complete and every outcome (each `count` action
 carries whether that attempt's result matches the cancel conditions), every interleaving with the coordinator.
 Reading: a result is *accepted* when the coordinator receives it.
 -/
@@ -58,11 +58,22 @@ theorem winner_produced_by_attempt (n : Nat) (as : List Act) (s : St) (h : as.fo
     s.ths[w]? = some .finished ∧ (c = false → s.finishedCount = s.n) :=
   (reachable_inv n as s h).produced (w, c) (Or.inr hacc)
 
-/-- **a result matching the cancel conditions is delivered as soon as it is produced, without waiting for the others**: the
-send happens in the very step in which such an attempt finishes, provided nothing was sent before -/
-theorem cancellable_sent_at_once (s : St) (k : Nat) (hrun : s.ths[k]? = some .running) (hns : s.sent = false) :
-    ∃ s', step s (.finish k true) = some s' ∧ s'.chan = some (k, true) := by
-  simp [step, hrun, hns]
+/-- **a result matching the cancel conditions is delivered as soon as it is produced, without waiting for the others**: once the
+attempt has been counted, its very next step sends the result, provided nothing was sent before (whether or not it was the final one) -/
+theorem cancellable_sent_at_once (s : St) (k : Nat) (f : Bool) (hp : (k, true, f) ∈ s.pending) (hns : s.sent = false) :
+    ∃ s', step s (.trySend k true f) = some s' ∧ s'.chan = some (k, true) := by
+  simp [step, hp, hns]
+
+/-- counting an attempt's result is what decides whether it is the final one, and puts it in line for the send -/
+theorem count_enqueues (s : St) (k : Nat) (c : Bool) (hrun : s.ths[k]? = some .running) :
+    ∃ s', step s (.count k c) = some s' ∧ (k, c, decide (s.finishedCount + 1 = s.n)) ∈ s'.pending ∧ s'.finishedCount = s.finishedCount + 1 := by
+  simp [step, hrun]
+
+/-- **the window the TRACE tie found**: the count and the send are two steps, so a *final* non-cancellable result can win the
+`resultSent` CAS against a cancellable one that was counted before it — the caller is then handed a result that does not match the
+cancel conditions, but (theorem `winner_produced_by_attempt`) only one that was delivered after all attempts had finished -/
+example : (([Act.launch, .timer, .launch, .count 0 true, .count 1 false, .trySend 1 false true, .trySend 0 true false, .recv] : List Act).foldlM
+    (m := Option) step (init 2)).map (fun s => (s.accepted, s.finishedCount)) = some (some (1, false), 2) := by decide
 
 /-- **at the moment it returns every other started attempt has been cancelled and the winning attempt has not** -/
 theorem losers_cancelled_winner_not (s s' : St) (h : step s .recv = some s') :
@@ -80,7 +91,7 @@ theorem losers_cancelled_winner_not (s s' : St) (h : step s .recv = some s') :
   · cases h
 
 example : Inv (init 3) := init_inv 3
-example : (([Act.launch, .timer, .launch, .finish 1 true, .recv] : List Act).foldlM (m := Option) step (init 3)).map
+example : (([Act.launch, .timer, .launch, .count 1 true, .trySend 1 true false, .recv] : List Act).foldlM (m := Option) step (init 3)).map
     (fun s => (s.accepted, s.cancelled, s.launched)) = some (some (1, true), [0], 2) := by decide
 
 /-! ## TRACE tie: recorded runs of the real hedge policy are replayed through the model
